@@ -16,7 +16,13 @@ if rnd:
     if prev:
         avoid = "\n\nEarlier developers already tried the following changes; yours must use DIFFERENT mechanisms and code locations, and exercise a different part of the property's statement:\n" + "\n".join(prev)
 hint = ""
-if rnd == "r5":
+if rnd == "r6":
+    hint = ("\n\nFor this round: many earlier changes were found by automated checks that generate programs, values and operation histories and compare against models. "
+            "Look for changes such checks are least likely to reach: behaviour that depends on a SPECIFIC CONSTANT or SIZE threshold inside the implementation (buffer sizes, small-value fast paths, table growth points, recursion or nesting limits, 8/16/32/64-bit boundaries); "
+            "on the ORDER in which two features are combined; on a value being used in two roles at once (the same object as receiver and argument, as key and value, as iterable and target); "
+            "or on host-side Go API use that a script cannot express. Prefer bugs that return a plausible but wrong result or leave wrong state. "
+            "Make bug a and bug b differ from each other in kind, and from every earlier change listed at the end.")
+elif rnd == "r5":
     hint = ("\n\nFor this round, look especially at: failure and clean-up paths (what state is left behind when an operation fails half-way, and what a LATER operation then sees); "
             "the less common value types in scope of the property (bytes, range, tuple, struct, module, bound methods, string iterables such as elems()/codepoints(), floats such as -0.0/inf/nan, None); "
             "scenarios with several modules or several executions on one thread (load, a module using values of an earlier module, thread re-use); "
